@@ -243,7 +243,12 @@ Definition set_pc (ts : tstate) (p : pc) : tstate :=
 Definition chunk_res (b : N) (rs : list run) (cnt took : N) : res :=
   RChunk b (runs_take took rs) cnt took (cnt - took).
 
-(** maximal compression of a list of runs: adjacent runs that continue each other are merged *)
+(** a run, or nothing when it is empty *)
+Definition nz_run (oi : option N) (v c : N) : list run := if c =? 0 then [] else [mk_run oi v c].
+
+(** maximal compression of a list of runs: adjacent runs that continue each other are merged.  The
+    machine reports the runs as they were delivered; the driver prints them compressed, which is the
+    form in which the instrumented crate reports them. *)
 Definition continues (a b : run) : bool :=
   (r_val b =? r_val a + r_cnt a) &&
   match r_idx a, r_idx b with
@@ -301,14 +306,14 @@ Definition deliver (e : env) (ts : tstate) (q : req) (pr : outcome pullres)
       let fin (r : res) (d : list drops) :=
         ({| t_pc := PIdle; t_todo := t_todo ts; t_buf := t_buf ts; t_acc := [] |}, Some (r, d)) in
       match pr with
-      | Panic k => fin (RPanic k (merge_runs (rev (t_acc ts)))) []
-      | Ok PREnd => fin (RLoop (merge_runs (rev (t_acc ts)))) []
+      | Panic k => fin (RPanic k (rev (t_acc ts))) []
+      | Ok PREnd => fin (RLoop (rev (t_acc ts))) []
       | Ok (PRGot b rs cnt) =>
           let done := total_cnt (t_acc ts) in
           let '(inv, pan) := loop_invoke l crash done rs cnt in
           let acc' := rev inv ++ t_acc ts in
           match pan with
-          | Some used => fin (RPanic PkUser (merge_runs (rev acc'))) (drops_after e used rs)
+          | Some used => fin (RPanic PkUser (rev acc')) (drops_after e used rs)
           | None =>
               ({| t_pc := PRes q; t_todo := t_todo ts; t_buf := t_buf ts; t_acc := acc' |}, None)
           end
@@ -476,7 +481,7 @@ Definition step (e : env) (c : cfg) (t : tid) : cfg :=
       let l := LAtom t SF AStore 1 0 in
       let sh' := with_f sh true in
       let vs := rev got in
-      let acc := merge_runs (rev (t_acc ts)) in
+      let acc := rev (t_acc ts) in
       match q_ctx q, q_mode q, e_kind e, t_buf ts with
       | CTop, MBuf _, KIter, Some bf =>
           let '(sl, stale) := write_slots (bf_slots bf) vs in
@@ -490,10 +495,8 @@ Definition step (e : env) (c : cfg) (t : tid) : cfg :=
   | PSkip =>
       let idle := set_pc ts PIdle in
       match e_kind e with
-      | KSlice =>
+      | KSlice | KRange =>
           commit c t (with_c sh (e_len e)) idle (LAtom t SC AStore (e_len e) 0) [ERet t RUnit []]
-      | KRange =>
-          commit c t (with_c sh (e_end e)) idle (LAtom t SC AStore (e_end e) 0) [ERet t RUnit []]
       | KIter =>
           commit c t (with_f sh true) idle (LAtom t SF AStore 1 0) [ERet t RUnit []]
       | _ =>
@@ -538,7 +541,7 @@ Definition init (progs : tid -> list op) : cfg :=
 
 Definition seq_res (e : env) (lo cnt k : N) : res * list drops :=
   let took := N.min k cnt in
-  (RSeq (merge_runs [mk_run None (val_of e lo) took]) took,
+  (RSeq (nz_run None (val_of e lo) took) took,
    drops_of_run e (val_of e (lo + took)) (cnt - took)).
 
 Definition final_step (e : env) (c : cfg) (t : tid) (f : final) : cfg :=
@@ -563,7 +566,7 @@ Definition final_step (e : env) (c : cfg) (t : tid) (f : final) : cfg :=
       match add_u (e_mode e) (e_start e) m with
       | Ok s' =>
           let cnt := if s' <? e_end e then e_end e - s' else 0 in
-          fin sh [ldc] (RSeq (merge_runs [mk_run None s' (N.min k cnt)]) (N.min k cnt)) []
+          fin sh [ldc] (RSeq (nz_run None s' (N.min k cnt)) (N.min k cnt)) []
       | Panic pk => fin sh [ldc] (RPanic pk []) []
       end
   | FIntoSeq k, KVec =>
